@@ -1264,10 +1264,15 @@ impl VariableIdentifier {
 
     /// Create a new direct variable identifier.
     pub fn new_direct(name: Option<Id>, location: AddressAssignment) -> Self {
+        // The identifier is the name (when there is one) and the address
+        let span = match &name {
+            Some(name) => SourceSpan::join(&name.span, &location.position),
+            None => location.position.clone(),
+        };
         VariableIdentifier::Direct(DirectVariableIdentifier {
             name,
             address_assignment: location,
-            span: SourceSpan::default(),
+            span,
         })
     }
 
